@@ -32,13 +32,22 @@ def component_of(p):
     return p["ch"]
 
 
-def make(ch, p, ers):
+def make(ch, p, ers, spelling="default"):
+    """spelling: how the legal constructor call is written (positional / keyword / python int for 0 and 1)"""
     from kaira.channels import BinaryErasureChannel, BinarySymmetricChannel, BinaryZChannel
+    if spelling == "int" and float(p) in (0.0, 1.0):
+        p = int(p)
     if ch == "bsc":
-        return BinarySymmetricChannel(p)
+        return BinarySymmetricChannel(crossover_prob=p) if spelling == "keyword" else BinarySymmetricChannel(p)
     if ch == "z":
-        return BinaryZChannel(p)
-    return BinaryErasureChannel(p, erasure_symbol=ers) if ers is not None else BinaryErasureChannel(p)
+        return BinaryZChannel(error_prob=p) if spelling == "keyword" else BinaryZChannel(p)
+    if ers is None:
+        return BinaryErasureChannel(erasure_prob=p) if spelling == "keyword" else BinaryErasureChannel(p)
+    if spelling == "keyword":
+        return BinaryErasureChannel(erasure_prob=p, erasure_symbol=ers)
+    if spelling == "positional":
+        return BinaryErasureChannel(p, ers)
+    return BinaryErasureChannel(p, erasure_symbol=ers)
 
 
 def execute(pl, res):
@@ -52,120 +61,131 @@ def execute(pl, res):
         ersv = -1 if ers is None else ers
         cfg = f"p={p},{alpha},{dt}" + (f",ers={ers}" if ers is not None else "")
         v = lambda clause, d, f=None: res.viol(ch, cfg, clause, d, f)  # noqa: E731
-        chan = make(ch, p, ers)
-        for L in pl["Ls"]:
-            vals = (0, 1) if alpha == "01" else (-1, 1)
-            one = 1
-            for xin in product(vals, repeat=L):
-                if alpha == "pm1" and -1 not in xin:
-                    continue            # the bipolar format is recognised by the presence of a -1
-                layouts = [("c", (L,))] + ([("c", (2, L // 2))] if L % 2 == 0 else []) + [("c", (1, 1, L))]
-                # memory layouts: the same logical content presented as a non-contiguous view (transposed, strided slice, channels-last,
-                # stride-0 expanded batch): the law is about logical symbols, whatever the strides
-                if L % 2 == 0 and L >= 4:
-                    layouts += [("transposed", (2, L // 2)), ("channels_last", (1, 2, 1, L // 2))]
-                if L >= 2:
-                    layouts.append(("strided", (L,)))
-                if L <= 3:
-                    layouts.append(("expanded", (2, L)))
-                if L == 4:
-                    layouts.append(("permuted", (2, 1, 2)))
-                for lname, shape in layouts:
-                    base_t = torch.tensor(xin, dtype=torch.float32).to(dtype)
-                    if lname == "c":
-                        x = base_t.reshape(shape)
-                    elif lname == "transposed":
-                        x = base_t.reshape(shape).t().contiguous().t()
-                    elif lname == "channels_last":
-                        x = base_t.reshape(shape).contiguous(memory_format=torch.channels_last)
-                    elif lname == "strided":
-                        x = torch.stack([base_t, torch.full_like(base_t, vals[1])], dim=1).reshape(-1)[::2]
-                    elif lname == "expanded":
-                        x = base_t.reshape(1, L).expand(2, L)
-                    else:
-                        x = base_t.reshape(2, 2).t().contiguous().t().unsqueeze(1)
-                    assert tuple(x.shape) == tuple(shape) and (lname in ("c",) or not x.is_contiguous()), (lname, shape, x.stride())
-                    xlog = [int(t) for t in x.reshape(-1).to(torch.float32).tolist()]
-                    Ll = len(xlog)
-                    eligible = [i for i, s_ in enumerate(xlog) if (ch != "z" or s_ == one)]
-                    shape_s = shape if lname == "c" else f"{shape} [{lname} view, strides {tuple(x.stride())}]"
-                    x0 = x.clone()
-                    D = None
-                    # extremes + all {below, above} vectors; D (draws consumed) is learnt from the first run
-                    runs = []
-
-                    def run(ans):
-                        pol = Alphabet(ans, pad=0.5)
-                        with Seam(pol):
-                            y = chan(x)
-                        return y, pol
-                    try:
-                        y, pol = run([TOP] * 64)
-                    except Exception as e:  # noqa: BLE001
-                        v("raises", f"input {xlog}{'' if lname == 'c' else ' as ' + lname + ' view'} shape {shape_s}: {type(e).__name__}: {str(e)[:160]}")
-                        break
-                    D = pol.served
-                    res.transitions += 1
-                    if D > 12:
-                        v("private-draw", f"{D} draws consumed for {Ll} symbols")
-                        break
-                    vecs = [tuple([TOP] * D), tuple([0.0] * D)]
-                    if 0.0 < p < 1.0:
-                        vecs += list(product([above, below], repeat=D))
-                    changed_of = {}
-                    for ans in vecs:
-                        y, pol = run(list(ans))
-                        res.ev(1, nontrivial=1 if (eligible and any(a < p for a in ans)) else 0, transitions=1)
-                        if pol.served != D:
-                            v("private-draw", f"number of draws depends on the answers: {pol.served} vs {D}")
-                        if not torch.equal(x, x0):
-                            v("input-intact", f"input {xlog}{'' if lname == 'c' else ' as ' + lname + ' view'} ({dt}) was modified to {x.reshape(-1).tolist()}")
-                            x = x0.clone()
-                        if y is x or (y.data_ptr() == x.data_ptr() and y.numel() > 0):
-                            v("input-intact", "output aliases the input tensor")
-                        if tuple(y.shape) != tuple(shape):
-                            v("support", f"output shape {tuple(y.shape)} for input shape {shape_s}")
-                            continue
-                        yl = [float(t) for t in y.reshape(-1).tolist()]
-                        xl = [float(t) for t in xlog]
-                        allowed = {float(s) for s in vals} | ({float(ersv)} if ch == "bec" else set())
-                        if any(t not in allowed for t in yl):
-                            v("support", f"input {xlog}{'' if lname == 'c' else ' as ' + lname + ' view'}, answers {list(ans)}: output {yl} leaves the alphabet {sorted(allowed)}", {"x": xlog, "layout": lname, "ans": list(ans)})
-                        changed = frozenset(i for i in range(Ll) if yl[i] != xl[i])
-                        changed_of[ans] = changed
-                        flipped_ok = all((yl[i] == float(ersv)) if ch == "bec" else (yl[i] == float(vals[0] + vals[1] - xlog[i])) for i in changed)
-                        if not flipped_ok:
-                            v("support", f"input {xlog}{'' if lname == 'c' else ' as ' + lname + ' view'}: changed symbols are not flipped/erased properly: {yl}", {"x": xlog, "layout": lname, "ans": list(ans)})
-                        if ch == "z" and any(xl[i] != float(one) for i in changed):
-                            v("z-one-sided", f"Z-channel changed a {vals[0]} : input {xlog}{'' if lname == 'c' else ' as ' + lname + ' view'} -> {yl}", {"x": xlog, "layout": lname, "ans": list(ans)})
-                        if ch == "bec" and any(yl[i] != xl[i] and yl[i] != float(ersv) for i in range(Ll)):
-                            v("bec-unerased", f"unerased symbol changed: {xlog}{'' if lname == 'c' else ' as ' + lname + ' view'} -> {yl}", {"x": xlog, "layout": lname, "ans": list(ans)})
-                        if p == 0.0 and changed:
-                            v("p0", f"p=0 but input {xlog}{'' if lname == 'c' else ' as ' + lname + ' view'} -> {yl} (answers {list(ans)})", {"x": xlog, "layout": lname, "ans": list(ans)})
-                        if p == 1.0 and changed != frozenset(eligible):
-                            v("p1", f"p=1 but input {xlog}{'' if lname == 'c' else ' as ' + lname + ' view'} -> {yl}: changed {sorted(changed)} instead of all eligible {eligible} (answers {list(ans)})", {"x": xlog, "layout": lname, "ans": list(ans)})
-                    # private-draw law
-                    if 0.0 < p < 1.0:
-                        base = tuple([above] * D)
-                        if changed_of[base]:
-                            v("private-draw", f"all draws above p={p} but symbols {sorted(changed_of[base])} changed (input {xlog}{'' if lname == 'c' else ' as ' + lname + ' view'})", {"x": xlog, "layout": lname})
-                        S = []
-                        for d in range(D):
-                            a = list(base)
-                            a[d] = below
-                            S.append(changed_of[tuple(a)])
-                        if any(len(s) > 1 for s in S):
-                            v("private-draw", f"one draw controls several symbols: {[sorted(s) for s in S]} (input {xlog}{'' if lname == 'c' else ' as ' + lname + ' view'})", {"x": xlog, "layout": lname})
-                        ctrl = [next(iter(s)) for s in S if len(s) == 1]
-                        if sorted(ctrl) != sorted(eligible):
-                            v("private-draw", f"draws below p={p} one at a time change symbols {sorted(ctrl)}, eligible symbols are {eligible} (input {xlog}{'' if lname == 'c' else ' as ' + lname + ' view'}, {D} draws)", {"x": xlog, "layout": lname})
+        for spelling in ("default", "keyword", "positional", "int"):
+            if spelling == "int" and p not in (0.0, 1.0):
+                continue
+            if spelling == "positional" and ers is None:
+                continue
+            cfg = f"p={p},{alpha},{dt}" + (f",ers={ers}" if ers is not None else "") + ("" if spelling == "default" else f",{spelling} arguments")
+            v = lambda clause, d, f=None, cfg=cfg: res.viol(ch, cfg, clause, d, f)  # noqa: E731
+            try:
+                chan = make(ch, p, ers, spelling)
+            except Exception as e:  # noqa: BLE001
+                v("raises", f"constructor ({spelling} arguments): {type(e).__name__}: {str(e)[:160]}")
+                continue
+            for L in (pl["Ls"] if spelling == "default" else [1, 2]):
+                vals = (0, 1) if alpha == "01" else (-1, 1)
+                one = 1
+                for xin in product(vals, repeat=L):
+                    if alpha == "pm1" and -1 not in xin:
+                        continue            # the bipolar format is recognised by the presence of a -1
+                    layouts = [("c", (L,))] + ([("c", (2, L // 2))] if L % 2 == 0 else []) + [("c", (1, 1, L))]
+                    # memory layouts: the same logical content presented as a non-contiguous view (transposed, strided slice, channels-last,
+                    # stride-0 expanded batch): the law is about logical symbols, whatever the strides
+                    if L % 2 == 0 and L >= 4:
+                        layouts += [("transposed", (2, L // 2)), ("channels_last", (1, 2, 1, L // 2))]
+                    if L >= 2:
+                        layouts.append(("strided", (L,)))
+                    if L <= 3:
+                        layouts.append(("expanded", (2, L)))
+                    if L == 4:
+                        layouts.append(("permuted", (2, 1, 2)))
+                    for lname, shape in layouts:
+                        base_t = torch.tensor(xin, dtype=torch.float32).to(dtype)
+                        if lname == "c":
+                            x = base_t.reshape(shape)
+                        elif lname == "transposed":
+                            x = base_t.reshape(shape).t().contiguous().t()
+                        elif lname == "channels_last":
+                            x = base_t.reshape(shape).contiguous(memory_format=torch.channels_last)
+                        elif lname == "strided":
+                            x = torch.stack([base_t, torch.full_like(base_t, vals[1])], dim=1).reshape(-1)[::2]
+                        elif lname == "expanded":
+                            x = base_t.reshape(1, L).expand(2, L)
                         else:
-                            for ans, chg in changed_of.items():
-                                if len(ans) != D or not all(a in (below, above) for a in ans):
-                                    continue
-                                want = frozenset().union(*[S[d] for d in range(D) if ans[d] == below]) if D else frozenset()
-                                if chg != want:
-                                    v("private-draw", f"answers {['below' if a == below else 'above' for a in ans]}: changed {sorted(chg)}, expected {sorted(want)} (input {xlog}{'' if lname == 'c' else ' as ' + lname + ' view'})", {"x": xlog, "layout": lname, "ans": list(ans)})
-                                    break
-                        res.outcome((ch, Ll, D, len(eligible)))
+                            x = base_t.reshape(2, 2).t().contiguous().t().unsqueeze(1)
+                        assert tuple(x.shape) == tuple(shape) and (lname in ("c",) or not x.is_contiguous()), (lname, shape, x.stride())
+                        xlog = [int(t) for t in x.reshape(-1).to(torch.float32).tolist()]
+                        Ll = len(xlog)
+                        eligible = [i for i, s_ in enumerate(xlog) if (ch != "z" or s_ == one)]
+                        shape_s = shape if lname == "c" else f"{shape} [{lname} view, strides {tuple(x.stride())}]"
+                        x0 = x.clone()
+                        D = None
+                        # extremes + all {below, above} vectors; D (draws consumed) is learnt from the first run
+                        runs = []
+
+                        def run(ans):
+                            pol = Alphabet(ans, pad=0.5)
+                            with Seam(pol):
+                                y = chan(x)
+                            return y, pol
+                        try:
+                            y, pol = run([TOP] * 64)
+                        except Exception as e:  # noqa: BLE001
+                            v("raises", f"input {xlog}{'' if lname == 'c' else ' as ' + lname + ' view'} shape {shape_s}: {type(e).__name__}: {str(e)[:160]}")
+                            break
+                        D = pol.served
+                        res.transitions += 1
+                        if D > 12:
+                            v("private-draw", f"{D} draws consumed for {Ll} symbols")
+                            break
+                        vecs = [tuple([TOP] * D), tuple([0.0] * D)]
+                        if 0.0 < p < 1.0:
+                            vecs += list(product([above, below], repeat=D))
+                        changed_of = {}
+                        for ans in vecs:
+                            y, pol = run(list(ans))
+                            res.ev(1, nontrivial=1 if (eligible and any(a < p for a in ans)) else 0, transitions=1)
+                            if pol.served != D:
+                                v("private-draw", f"number of draws depends on the answers: {pol.served} vs {D}")
+                            if not torch.equal(x, x0):
+                                v("input-intact", f"input {xlog}{'' if lname == 'c' else ' as ' + lname + ' view'} ({dt}) was modified to {x.reshape(-1).tolist()}")
+                                x = x0.clone()
+                            if y is x or (y.data_ptr() == x.data_ptr() and y.numel() > 0):
+                                v("input-intact", "output aliases the input tensor")
+                            if tuple(y.shape) != tuple(shape):
+                                v("support", f"output shape {tuple(y.shape)} for input shape {shape_s}")
+                                continue
+                            yl = [float(t) for t in y.reshape(-1).tolist()]
+                            xl = [float(t) for t in xlog]
+                            allowed = {float(s) for s in vals} | ({float(ersv)} if ch == "bec" else set())
+                            if any(t not in allowed for t in yl):
+                                v("support", f"input {xlog}{'' if lname == 'c' else ' as ' + lname + ' view'}, answers {list(ans)}: output {yl} leaves the alphabet {sorted(allowed)}", {"x": xlog, "layout": lname, "ans": list(ans)})
+                            changed = frozenset(i for i in range(Ll) if yl[i] != xl[i])
+                            changed_of[ans] = changed
+                            flipped_ok = all((yl[i] == float(ersv)) if ch == "bec" else (yl[i] == float(vals[0] + vals[1] - xlog[i])) for i in changed)
+                            if not flipped_ok:
+                                v("support", f"input {xlog}{'' if lname == 'c' else ' as ' + lname + ' view'}: changed symbols are not flipped/erased properly: {yl}", {"x": xlog, "layout": lname, "ans": list(ans)})
+                            if ch == "z" and any(xl[i] != float(one) for i in changed):
+                                v("z-one-sided", f"Z-channel changed a {vals[0]} : input {xlog}{'' if lname == 'c' else ' as ' + lname + ' view'} -> {yl}", {"x": xlog, "layout": lname, "ans": list(ans)})
+                            if ch == "bec" and any(yl[i] != xl[i] and yl[i] != float(ersv) for i in range(Ll)):
+                                v("bec-unerased", f"unerased symbol changed: {xlog}{'' if lname == 'c' else ' as ' + lname + ' view'} -> {yl}", {"x": xlog, "layout": lname, "ans": list(ans)})
+                            if p == 0.0 and changed:
+                                v("p0", f"p=0 but input {xlog}{'' if lname == 'c' else ' as ' + lname + ' view'} -> {yl} (answers {list(ans)})", {"x": xlog, "layout": lname, "ans": list(ans)})
+                            if p == 1.0 and changed != frozenset(eligible):
+                                v("p1", f"p=1 but input {xlog}{'' if lname == 'c' else ' as ' + lname + ' view'} -> {yl}: changed {sorted(changed)} instead of all eligible {eligible} (answers {list(ans)})", {"x": xlog, "layout": lname, "ans": list(ans)})
+                        # private-draw law
+                        if 0.0 < p < 1.0:
+                            base = tuple([above] * D)
+                            if changed_of[base]:
+                                v("private-draw", f"all draws above p={p} but symbols {sorted(changed_of[base])} changed (input {xlog}{'' if lname == 'c' else ' as ' + lname + ' view'})", {"x": xlog, "layout": lname})
+                            S = []
+                            for d in range(D):
+                                a = list(base)
+                                a[d] = below
+                                S.append(changed_of[tuple(a)])
+                            if any(len(s) > 1 for s in S):
+                                v("private-draw", f"one draw controls several symbols: {[sorted(s) for s in S]} (input {xlog}{'' if lname == 'c' else ' as ' + lname + ' view'})", {"x": xlog, "layout": lname})
+                            ctrl = [next(iter(s)) for s in S if len(s) == 1]
+                            if sorted(ctrl) != sorted(eligible):
+                                v("private-draw", f"draws below p={p} one at a time change symbols {sorted(ctrl)}, eligible symbols are {eligible} (input {xlog}{'' if lname == 'c' else ' as ' + lname + ' view'}, {D} draws)", {"x": xlog, "layout": lname})
+                            else:
+                                for ans, chg in changed_of.items():
+                                    if len(ans) != D or not all(a in (below, above) for a in ans):
+                                        continue
+                                    want = frozenset().union(*[S[d] for d in range(D) if ans[d] == below]) if D else frozenset()
+                                    if chg != want:
+                                        v("private-draw", f"answers {['below' if a == below else 'above' for a in ans]}: changed {sorted(chg)}, expected {sorted(want)} (input {xlog}{'' if lname == 'c' else ' as ' + lname + ' view'})", {"x": xlog, "layout": lname, "ans": list(ans)})
+                                        break
+                            res.outcome((ch, Ll, D, len(eligible)))
         res.sample({"channel": ch, "p": p, "alphabet": alpha, "dtype": dt, "erasure_symbol": ersv})
